@@ -167,6 +167,12 @@ class Effects:
                 return self.root_param(t[2][0], depth + 1)
             if f[0] == "attr" and f[2] in VIEW_METHODS:
                 return self.root_param(f[1], depth + 1)
+            if f[0] == "attr" and f[2] == "astype" and (dict(t[3]).get("copy") == ("const", False) or
+                                                        (len(t[2]) >= 5 and t[2][4] == ("const", False))):
+                return self.root_param(f[1], depth + 1)  # no copy when the type already matches
+            if f[0] == "mod" and f[1] in ("numpy.array", "numpy.asarray", "numpy.asanyarray") and t[2] and (
+                    f[1] != "numpy.array" or dict(t[3]).get("copy") == ("const", False)):
+                return self.root_param(t[2][0], depth + 1)  # asarray / array(copy=False) hand back the argument itself
             return None
         if tag == "star":
             return self.root_param(t[1], depth + 1)
